@@ -75,8 +75,11 @@ type HarnessRun struct {
 	maxPaths                     int
 	stop                         bool
 	maxDepthSeen                 int
+	firstViol                    time.Time
 	cfg                          RunConfig
 }
+
+const violGrace = 90 * time.Second
 
 type RunConfig struct {
 	Tier       string
@@ -116,6 +119,7 @@ type Machine struct {
 	nextFake  uint64
 	fakePtrs  map[uint64]Value
 	concBound int
+	crcBound  int
 	copyBound int
 
 	inputs    []*Term
@@ -260,6 +264,31 @@ func (m *Machine) assertProp(fr *frame, c *Term, tag string) {
 	var assign map[string]uint64
 	var blocks map[string][]byte
 	var ok bool
+	if hr.haveViolation("assert:" + tag) {
+		// this assertion already has a recorded counterexample: decide feasibility only
+		// (no model extraction), so that the remaining exploration stays cheap
+		if c.op == OpConst {
+			m.pos++
+			m.pushDecision(0)
+			panic(pathEnd{"assert-fails-always"})
+		}
+		fails := m.check(m.tc.BNot(c)) == ResSat
+		m.pos++
+		if !fails {
+			hr.mu.Lock()
+			hr.assertUnsat++
+			hr.mu.Unlock()
+			m.pushDecision(1)
+			return
+		}
+		if m.check(c) == ResUnsat {
+			m.pushDecision(0)
+			panic(pathEnd{"assert-fails-always"})
+		}
+		m.pushDecision(2)
+		m.addPC(c)
+		return
+	}
 	if c.op == OpConst {
 		assign, blocks, _, ok = m.model(nil, nil)
 		if !ok {
@@ -289,12 +318,25 @@ func (m *Machine) assertProp(fr *frame, c *Term, tag string) {
 	m.addPC(c)
 }
 
+func (hr *HarnessRun) haveViolation(key string) bool {
+	hr.mu.Lock()
+	defer hr.mu.Unlock()
+	_, ok := hr.viol[key]
+	return ok
+}
+
 func (hr *HarnessRun) recordViolation(v *Violation) {
 	hr.mu.Lock()
 	defer hr.mu.Unlock()
 	key := v.Kind + ":" + v.Tag
 	if _, ok := hr.viol[key]; !ok {
 		hr.viol[key] = v
+		if hr.firstViol.IsZero() {
+			hr.firstViol = time.Now()
+		}
+		if os.Getenv("VERIF_PROGRESS") != "" {
+			fmt.Fprintf(os.Stderr, "[violation %s %s: %s at %s assign=%v]\n", v.Kind, v.Tag, v.Msg, v.Where, v.Assign)
+		}
 	}
 }
 
@@ -375,6 +417,9 @@ func (hr *HarnessRun) runPath(solver *Solver, prefix []byte) {
 			case *targetPanic:
 				// a panic escaped the harness: violation unless inside MayPanic (handled there)
 				reason = "panic"
+				if hr.haveViolation("panic:unexpected-panic") {
+					return
+				}
 				assign, blocks, _, ok := m.model(nil, nil)
 				if !ok {
 					hr.mu.Lock()
@@ -459,6 +504,13 @@ func (hr *HarnessRun) runPath(solver *Solver, prefix []byte) {
 	}
 	for f, n := range m.natives {
 		hr.natives[f.String()] += n
+	}
+	if !hr.firstViol.IsZero() && time.Since(hr.firstViol) > violGrace && len(hr.work) > 0 && !hr.stop {
+		// a counterexample exists; the verdict cannot become "held". Exploration continues for a
+		// grace period to collect other violations, then stops.
+		hr.stop = true
+		hr.ended["stopped-after-violation"]++
+		hr.cond.Broadcast()
 	}
 	if hr.paths >= hr.maxPaths && len(hr.work) > 0 {
 		hr.stop = true
